@@ -171,9 +171,10 @@ BINARY: list[tuple[str, str]] = [
 CORE12 = ["object", "int", "bool", "str", "None", "B", "D", "Co[B]", "PGen[B]", "tuple[int, str]",
           "Callable[[int], str]", "Literal[1]"]
 CORE8 = ["object", "int", "None", "B", "D", "Co[B]", "Callable[[int], str]", "Literal[1]"]
-# quick: unary constructors over these 20 atoms
+# quick: unary constructors over these 20 atoms + bare `type` (the only Any-like atom: it makes proper and
+# non-proper subtyping differ on generic instances, which the cache-independence sweeps need)
 CORE20 = ["object", "int", "bool", "float", "str", "None", "Never", "A", "B", "D", "Inv[B]", "Co[B]",
-          "PGen[B]", "tuple[int, str]", "TDT", "Literal[1]", "Color", "Type[B]", "Callable[[int], str]", "TB"]
+          "PGen[B]", "tuple[int, str]", "TDT", "Literal[1]", "Color", "Type[B]", "type", "Callable[[int], str]", "TB"]
 # 20-type core for union simplification
 UNION_CORE = ["object", "int", "bool", "float", "str", "None", "Never", "A", "B", "D", "Co[B]", "PGen[B]",
               "tuple[int, str]", "tuple[int, ...]", "TDT", "Literal[1]", "Literal[True]", "Literal[Color.RED]",
